@@ -276,8 +276,8 @@ def visitor_declares(ctx):
         if not isinstance(c, ast.ClassDef):
             continue
         m = [s for s in c.body if isinstance(s, ast.FunctionDef) and s.name == "declared_identifiers"]
-        if not m:
-            continue
+        if not m or c.name.startswith("_"):
+            continue  # (a private class is a shared base, never the class of a node)
         rets = [r for r in walk_func(m[0]) if isinstance(r, ast.Return)]
         trivial = all(isinstance(r.value, (ast.List, ast.Tuple, ast.Set)) and not r.value.elts or (isinstance(r.value, ast.Call) and dotted(r.value.func) in ("set", "list", "frozenset", "tuple") and not r.value.args) for r in rets)
         if not trivial:
